@@ -504,7 +504,7 @@ def run_ops(w: World, ops, stan_role=None, limit: float = 20.0):
             ent["raised"] = e
             tok = "raise:" + exc_token(e)
         ent["tok"] = tok
-        ent["nreports"] = len(w.reports)
+        ent["nreports"] = sum(1 for r in w.reports if r[2] == "docstring" and r[1].startswith("bad docstring: "))
         outs.append(tok)
         trace.append(ent)
     return outs, trace
@@ -731,7 +731,7 @@ def random_fault_case(rng) -> Dict[str, Any]:
             o["parsed"] = new_pd()
         if o:
             sp["objs"][i] = o
-        for f in set([sysf] + [v for v in sp["modfmt"].values() if v and v != "u"] + ["p"]):
+        for f in sorted(set([sysf] + [v for v in sp["modfmt"].values() if v and v != "u"] + ["p"])):
             if rng.random() < 0.8:
                 c = rng.random()
                 errs = [(rng.randint(1, 30), rng.choice([None, 0, 1, 7]), rng.randint(0, 1)) for _ in range(rng.choice([0, 0, 1, 2]))]
@@ -745,3 +745,624 @@ def random_fault_case(rng) -> Dict[str, Any]:
     sp["ops"] = [(rng.choice("eddsstx") if True else "d", rng.choice(focus)) for _ in range(rng.randint(4, 14))]
     sp["ops"] = [(op, i) for op, i in sp["ops"] if not (op == "x" and sp["objs"].get(i, {}).get("doc") is None and rng.random() < 0.8)]
     return sp
+
+
+# ------------------------------------------------------------------ fault stream: direct oracle (no Lean model involved)
+
+def spec_source(spec: Dict[str, Any], i: int) -> Optional[int]:
+    """the object whose non-empty docstring documents object i (own first, then inherited)"""
+    for s in [i] + INHERITED.get(i, []):
+        d = spec["objs"].get(s, {}).get("doc")
+        if d:
+            return s
+        if d is not None:
+            return None
+    return None
+
+
+def spec_docformat(spec: Dict[str, Any], src: int) -> str:
+    if spec["sys"] == "p":
+        return "p"
+    return spec.get("modfmt", {}).get(MODULE_OF[src]) or spec["sys"]
+
+
+def injected_outcome(spec: Dict[str, Any], fmt: str, i: int):
+    """what was injected for the parser of object i: ('ret', pd k | 'plain', errs) or ('raise', contract_ok)"""
+    if fmt == "u":
+        return ("ret", "plain", [])
+    par = spec.get("par", {}).get((fmt, i))
+    if par is None:
+        return ("ret", "plain", [])
+    kind, arg, errs = par
+    if kind == "raise":
+        return ("raise", not (arg[0] == "p" and not errs))
+    if arg != "plain" and spec["pt"] and fmt not in "gnp":
+        pd = spec.get("pd", {}).get(arg) or default_pd(arg)
+        for (t, bk, ln) in pd["F"]:
+            if t:
+                b = spec.get("pd", {}).get(bk) or default_pd(bk)
+                ty = spec.get("ty", {}).get(bk) or default_ty(bk)
+                if b["N"][0] == "x" or ty["M"][0] == "x":
+                    return ("raise", True)
+    return ("ret", arg, errs)
+
+
+def fault_oracle(ctx: Ctx, w: World, spec: Dict[str, Any], trace) -> None:
+    from pydoctor.epydoc.markup.plaintext import ParsedPlaintextDocstring
+
+    def fail(sig: str, what: str) -> None:
+        ctx.fail(sig, {"kind": "fault", "spec": spec_json(spec)}, what)
+    seen: Dict[Tuple[str, int], int] = {}
+    prev = 0
+    for t in trace:
+        opn = {"e": "ensure", "d": "docstring", "s": "summary", "t": "toc", "x": "extract"}[t["op"]]
+        if t["hang"]:
+            fail("hang:" + opn, "%s did not return within the time limit" % opn)
+        elif t["raised"] is not None:
+            e = t["raised"]
+            if t["op"] == "x" and isinstance(e, AssertionError) and spec["objs"].get(t["obj"], {}).get("doc") is None:
+                pass  # extract_fields' documented precondition (object has a docstring) not met by the random stream
+            elif t["op"] == "t":
+                fail("toc:unguarded-exception", "format_toc raised %s: an exception of to_node()/build_table_of_content() "
+                     "inside ParsedDocstring.get_toc is not handled" % type(e).__name__)
+            else:
+                fail("%s:raises:%s" % (opn, type(e).__name__), "%s raised %s" % (opn, type(e).__name__))
+        elif t["flat_err"]:
+            fail("flatten:%s:%s" % (opn, t["flat_err"]), "stan returned by %s cannot be flattened" % opn)
+        key = (t["op"], t["obj"])
+        if key in seen and t["nreports"] != prev:
+            fail("reported-twice:" + opn, "a repeated %s call on the same object filed %d more report(s)" % (opn, t["nreports"] - prev))
+        if t["op"] == "x":  # extract_fields re-parses and replaces parsed_docstring: later calls start afresh
+            seen = {k: v for k, v in seen.items() if k[1] != t["obj"]}
+        seen[key] = 1
+        prev = t["nreports"]
+    errs_now = {w.ids[n] for n in w.system.parse_errors.get("docstring", ())}
+    reported = {}
+    for (i, descr, section, off) in w.reports:
+        reported.setdefault(i, []).append(descr)
+    touched = {i for _, i in spec["ops"]}
+    sources = {spec_source(spec, i) for i in touched} | {PARENT[i] for i in touched if spec["objs"].get(i, {}).get("parsed") is not None}
+    for i, o in enumerate(w.objs):
+        if i in touched or i in sources:
+            continue
+        preset = spec["objs"].get(i, {}).get("parsed")
+        if (o.parsed_docstring is not None and preset is None) or o.parsed_summary is not None or i in errs_now or i in reported:
+            fail("isolation:untouched-object-changed", "object %s was never processed but its state or reports changed" % NAMES[i])
+    x = spec.get("x")
+    if x is None:
+        return
+    # ---- single-object cases: the property's clauses one by one
+    doc = spec["objs"][x]["doc"]
+    fmt = spec_docformat(spec, x)
+    out = injected_outcome(spec, fmt, x)
+    shown = [t for t in trace if t["op"] == "d" and t["obj"] == x and t["raised"] is None and not t["hang"]]
+    pd = w.objs[x].parsed_docstring
+    if out[0] == "raise":
+        if not (isinstance(pd, ParsedPlaintextDocstring) and pd._text == doc):
+            fail("fallback:parsed-form-not-full-text", "parser gave up but parsed_docstring is not the plaintext of the whole docstring")
+        for t in shown:
+            if t["body"] != "pre:" + enc(doc):
+                fail("fallback:display-differs", "parser gave up but the body shown is not the whole original text")
+        if out[1]:
+            if x not in errs_now or not reported.get(x):
+                fail("fallback:not-reported", "parser gave up and nothing was reported against the object")
+        else:
+            ctx.count("fault:parser-contract-breach-injected")
+    else:
+        k, errs = out[1], out[2]
+        if errs and (x not in errs_now or len([d for d in reported.get(x, []) if d.startswith("bad docstring: M")]) < len(errs)):
+            fail("recovered-errors:not-reported", "the parser stored %d error(s) and returned; they were not all reported against the object" % len(errs))
+        if k != "plain":
+            p = spec.get("pd", {}).get(k) or default_pd(k)
+            if p["S"][0] == "x":
+                for t in shown:
+                    if t["body"] != "pre:" + enc(doc):
+                        fail("render-fallback:display-differs", "to_stan raised but the body shown is not the whole original docstring")
+                if shown and x not in errs_now:
+                    fail("render-fallback:not-reported", "to_stan raised and the object is not among the reported objects")
+            pt_applies = bool(spec["pt"]) and fmt not in "gnp"
+            for t in shown:
+                for j, (isty, bk, ln) in enumerate(p["F"]):
+                    b = spec.get("pd", {}).get(bk) or default_pd(bk)
+                    s = (spec.get("ty", {}).get(bk) or default_ty(bk))["S"] if (isty and pt_applies) else b["S"]
+                    got = t["fields"][j] if j < len(t["fields"]) else "missing"
+                    if s[0] == "x" and got != "broken":
+                        fail("field:no-broken-placeholder", "a field body's to_stan raised and the field does not show the BROKEN placeholder")
+                    if s[0] == "r" and got != "o" + s[1:]:
+                        fail("field:lost", "a field body rendered fine but is not what the handler received")
+    ys = [t["tok"] for t in trace if t["obj"] == BYSTANDER]
+    firsts: Dict[str, str] = {}
+    for t in trace:
+        if t["obj"] == BYSTANDER and x != BYSTANDER:
+            if t["op"] in firsts and firsts[t["op"]] != t["tok"]:
+                fail("isolation:bystander-output-changed", "the rendering of another object's docstring changed after a failing object was processed")
+            firsts.setdefault(t["op"], t["tok"])
+    if x != BYSTANDER and (BYSTANDER in errs_now or BYSTANDER in reported):
+        fail("isolation:bystander-reported", "a healthy object was reported while another object's docstring failed")
+
+
+def spec_json(spec: Dict[str, Any]) -> Dict[str, Any]:
+    d = dict(spec)
+    d["par"] = [[f, i, list(v[:2]) + [list(map(list, v[2]))]] for (f, i), v in spec.get("par", {}).items()]
+    d["objs"] = {str(k): v for k, v in spec["objs"].items()}
+    d["pd"] = {str(k): v for k, v in spec.get("pd", {}).items()}
+    d["ty"] = {str(k): v for k, v in spec.get("ty", {}).items()}
+    d["modfmt"] = {str(k): v for k, v in spec.get("modfmt", {}).items()}
+    return d
+
+
+def spec_unjson(d: Dict[str, Any]) -> Dict[str, Any]:
+    s = dict(d)
+    s["par"] = {(f, i): (v[0], v[1], [tuple(e) for e in v[2]]) for f, i, v in d.get("par", [])}
+    s["objs"] = {int(k): v for k, v in d["objs"].items()}
+    s["pd"] = {int(k): dict(v, F=[tuple(f) for f in v["F"]]) for k, v in d.get("pd", {}).items()}
+    s["ty"] = {int(k): v for k, v in d.get("ty", {}).items()}
+    s["modfmt"] = {int(k): v for k, v in d.get("modfmt", {}).items()}
+    s["ops"] = [tuple(o) for o in d["ops"]]
+    if "plain" in s:
+        s["plain"] = tuple(s["plain"])
+    return s
+
+
+# ------------------------------------------------------------------ real stream: docstring generators
+
+FRAGMENTS = {
+    "epytext": ["L{", "C{x}", "B{", "}", "{", "U{http://x}", "L{a<b}", "I{x", "L{x y}", "L{text<a.b>}", "@param x: y", "@param",
+                "@type x: L{int", "@type x: int or None", "@return: ", "@rtype: C{str}", "@raise: ", "@raise E", "@ivar x: y",
+                "@note: a", "@unknownfield: z", "@param x y", "  - item", " - item", "1. one", "  2. two", ">>> print(1)",
+                "x::", "    literal", "Heading\n=======", "Sub\n---", "Short\n==========", "E{lb}", "E{zz}", "S{alpha}",
+                "S{nope}", "M{x^2}", "\t", "G{classtree}", "X{idx}", "L{}", "U{}", "@param x:\n   - a\n  - b", "@see: L{",
+                "@since", "@", "@:", "    @param deep: x", "C{L{I{B{x}}}}", "::"],
+    "restructuredtext": ["``x", "`x", "`x`_", "*x", "**x", "|x|", "x_", ".. foo::", ".. note::", ".. image::", ".. code:: python",
+                         ":param x: y", ":type x: `int", ":returns:", ":rtype: str", ":ivar x:", ":raises E: when", "+--+\n|a |\n+--+",
+                         "+--+\n|a", "====\nT\n====", "T\n=", "T\n---\n", "* item", "  indented", "::", "[1]_", ".. [1] note",
+                         ".. _t:", "`t`_", ":role:`x`", ":math:`x", ".. include:: /etc/hostname", ".. raw:: html\n\n   <b>",
+                         ".. csv-table::\n   :file: /x", ".. contents::", ".. sectnum::", ".. class:: x", ".. |s| replace:: t",
+                         ".. unicode:: 0x", ".. versionadded:: 1", ".. deprecated::", ":py:class:`a.b`", ":obj:`~x`", "`x <http://a>`_",
+                         "`x <y`_", "__ x", "anonymous__", ".. __: http://x", ".. table::\n\n   == ==\n   a  b", "A\n=\nB\n-\nC\n=\nD\n^\nE\n-",
+                         ".. code-block:: python\n   :linenos:\n\n   x", ".. math::\n\n   \\frac", ">>> 1+", ".. |a| image:: x", "|a|",
+                         ".. date::", ":Author: me", ":param:", ":unknown field: v", "\\", "x\\", ".. admonition::", ".. figure:: a\n   :scale: x"],
+    "google": ["Args:", "    x (int): y", "  x: y", "Returns:", "    str: d", "Raises:", "    ValueError", "Attributes:", "Example::",
+               "Note:", "Yields:", "Keyword Args:", "Args:\n x (list[int", "Todo:", "    * x", "Args:\n    *args: a\n    **kw: b",
+               "Returns:\n  :class:`x`", "Warns:", "See Also:\n    f", "Args:\n\tx: tab", "Attributes:\n    x (`int): y", "Args:\n    x (int, optional", "Other Parameters:"],
+    "numpy": ["Parameters\n----------", "x : int", "    desc", "Returns\n-------", "str", "Raises\n------", "See Also\n--------",
+              "func_a : d", "Attributes\n----------", "Notes\n-----", "x : {a, b", "Parameters\n---", ".. deprecated:: 1",
+              "Yields\n------\nint", "x, y : array_like", "*args", "Examples\n--------\n>>> a", "References\n----------\n.. [1] x",
+              "Parameters\n----------\nx : int, optional, default", "See Also\n--------\nf, g :", "Methods\n-------\nm(x)"],
+}
+SEPARATORS = ["\n", "\n\n", " ", "\n  ", "", "\n    ", "\n\n  ", "\r\n", ": "]
+SPECIALS = ["{", "}", "`", "*", "|", ":", "_", "\\", "\t", "\x0b", "@", "<", ">", "&", "::", "``", "\n", "\n\n", "  ", "=", "-", "\x00", "\x1b", "\u200b", "\u2028", "\x85", "\ufeff", "\U0001f600", "\u0301"]
+
+
+def gen_fragments(rng, fmt: Optional[str] = None) -> str:
+    pool = FRAGMENTS[fmt] if fmt and rng.random() < 0.7 else [f for v in FRAGMENTS.values() for f in v]
+    parts = []
+    for _ in range(rng.randint(1, 8)):
+        parts.append(rng.choice(pool) if rng.random() < 0.85 else rng.choice(["word", "Some sentence here.", "x", rng.choice(SPECIALS)]))
+        parts.append(rng.choice(SEPARATORS))
+    return "".join(parts)
+
+
+_CORPUS: List[str] = []
+
+
+def corpus() -> List[str]:
+    """docstrings of /repo/pydoctor/**/*.py and paragraphs of /repo/docs (read once, deterministic order)"""
+    if _CORPUS:
+        return _CORPUS
+    seen = set()
+    for path in sorted((REPO / "pydoctor").rglob("*.py")):
+        if "/test/testpackages/" in str(path) and "syntax_error" in str(path):
+            continue
+        try:
+            tree = ast.parse(path.read_text(encoding="utf-8"))
+        except Exception:
+            continue
+        for node in ast.walk(tree):
+            if isinstance(node, (ast.Module, ast.ClassDef, ast.FunctionDef, ast.AsyncFunctionDef)):
+                d = ast.get_docstring(node)
+                if d and 5 < len(d) < 1500 and d not in seen:
+                    seen.add(d)
+                    _CORPUS.append(d)
+    for path in sorted((REPO / "docs").rglob("*.rst")):
+        try:
+            paras = path.read_text(encoding="utf-8").split("\n\n")
+        except Exception:
+            continue
+        for i in range(0, len(paras), 3):
+            d = "\n\n".join(paras[i:i + 3])
+            if 5 < len(d) < 1500 and d not in seen:
+                seen.add(d)
+                _CORPUS.append(d)
+    return _CORPUS
+
+
+def mutate(rng, d: str) -> str:
+    for _ in range(rng.randint(1, 4)):
+        if not d:
+            break
+        m = rng.randrange(8)
+        i = rng.randrange(len(d))
+        if m == 0:
+            d = d[:i] + d[i + rng.randint(1, 12):]
+        elif m == 1:
+            d = d[:i] + rng.choice(SPECIALS) + d[i:]
+        elif m == 2:
+            lines = d.split("\n")
+            j = rng.randrange(len(lines))
+            lines.insert(j, lines[j])
+            d = "\n".join(lines)
+        elif m == 3:
+            lines = d.split("\n")
+            j = rng.randrange(len(lines))
+            lines[j] = rng.choice(["  ", "    ", "\t", " "]) + lines[j] if rng.random() < 0.6 else lines[j].lstrip()
+            d = "\n".join(lines)
+        elif m == 4:
+            lines = d.split("\n")
+            if len(lines) > 1:
+                a, b = rng.randrange(len(lines)), rng.randrange(len(lines))
+                lines[a], lines[b] = lines[b], lines[a]
+            d = "\n".join(lines)
+        elif m == 5:
+            d = d[:i]
+        elif m == 6:
+            d = d[:i] + rng.choice(FRAGMENTS[rng.choice(list(FRAGMENTS))]) + d[i:]
+        else:
+            d = d.replace(rng.choice([":", "`", "{", "}", "@", "-", "="]), rng.choice(SPECIALS), rng.randint(1, 3))
+    return d
+
+
+def gen_unicode(rng, surrogates: bool = False) -> str:
+    out = []
+    for _ in range(rng.randint(1, 30)):
+        r = rng.random()
+        if r < 0.25:
+            c = rng.randrange(0, 32)
+        elif r < 0.32:
+            c = rng.randrange(127, 160)
+        elif r < 0.6:
+            c = rng.randrange(32, 127)
+        elif r < 0.7:
+            c = rng.choice([0x2028, 0x2029, 0xFFFE, 0xFFFF, 0xFEFF, 0x200B, 0x200D, 0x202E, 0x0301, 0x0300, 0xFFFD, 0x85, 0xA0, 0x1FFFF, 0x10FFFF, 0xFDD0])
+        elif r < 0.9:
+            c = rng.randrange(0xA0, 0xD800) if rng.random() < 0.7 else rng.randrange(0xE000, 0x10000)
+        else:
+            c = rng.randrange(0x10000, 0x110000)
+        if 0xD800 <= c < 0xE000:
+            c = 0xFFFD
+        out.append(chr(c))
+    if surrogates:
+        for _ in range(rng.randint(1, 3)):
+            out.insert(rng.randrange(len(out) + 1), chr(rng.randrange(0xD800, 0xE000)))
+    return "".join(out)
+
+
+def gen_real_docstring(rng) -> Tuple[str, str]:
+    r = rng.random()
+    if r < 0.4:
+        f = rng.choice(list(FRAGMENTS))
+        return "fragments:" + f, gen_fragments(rng, f)
+    if r < 0.8:
+        c = corpus()
+        return "mutated", mutate(rng, rng.choice(c))
+    if r < 0.9:
+        return "unicode", gen_unicode(rng)
+    f = rng.choice(list(FRAGMENTS))
+    return "fragments+unicode", gen_fragments(rng, f) + gen_unicode(rng)
+
+
+# ------------------------------------------------------------------ real stream: run, observe the parameters, oracle
+
+BYST_REAL = "Bystander summary sentence.\n\nSecond paragraph of plain words."
+
+
+@contextlib.contextmanager
+def record_patches(w: World):
+    """wrap (not replace) the real parsers: record what the composed parser did for each object"""
+    from pydoctor import epydoc2stan
+    real_get = epydoc2stan.get_parser_by_name
+    real_pt = epydoc2stan.processtypes
+
+    def wrap(p, obj):
+        def rec(doc, errs):
+            try:
+                pd = p(doc, errs)
+            except Hang:
+                raise
+            except BaseException as e:
+                w.records[w.oid(obj)] = ("raise", e, list(errs))
+                raise
+            w.records[w.oid(obj)] = ("ret", pd, list(errs))
+            return pd
+        rec._c08_obj = obj
+        return rec
+
+    def get_parser(docformat, obj=None):
+        return wrap(real_get(docformat, obj), obj)
+
+    def processtypes(p):
+        return wrap(real_pt(p), p._c08_obj)
+    epydoc2stan.get_parser_by_name = get_parser
+    epydoc2stan.processtypes = processtypes
+    try:
+        yield
+    finally:
+        epydoc2stan.get_parser_by_name = real_get
+        epydoc2stan.processtypes = real_pt
+
+
+REAL_ORDERS = ["edst", "sdte", "tsde"]   # pydoctor itself asks for summaries (listings) before bodies
+
+
+def real_ops(x: int, order: int = 0) -> List[Tuple[str, int]]:
+    y = BYSTANDER
+    return [("d", y), ("s", y)] + [(c, x) for c in REAL_ORDERS[order % 3]] * 2 + [("d", y), ("s", y), ("t", y)]
+
+
+class Observer:
+    """after the run: call the parameters (parser record, to_stan, to_node, walk result, toc builder) once more to learn
+    their outcomes, and phrase them as a model request"""
+
+    def __init__(self, w: World, fmt: str, pt: int, td: int) -> None:
+        self.w, self.fmt, self.pt, self.td = w, fmt, pt, td
+        self.excids: Dict[str, int] = {}
+        self.exc_descr: Dict[str, str] = {}
+        self.descr: Dict[str, str] = {}
+        self.names: Dict[int, str] = {}
+        self.spec: Dict[str, Any] = {"kind": "real-model", "pt": 0, "td": td, "sys": fmt, "objs": {}, "pd": {}, "ty": {},
+                                     "par": {}, "plainfor": {}}
+
+    def exc_tok(self, e: BaseException) -> str:
+        from pydoctor.epydoc.markup import ParseError
+        # keyed by class: the message of some renderer exceptions (SAXParseException column) differs from call to call
+        cls = type(e).__name__
+        if isinstance(e, NotImplementedError) and not isinstance(e, ParseError):
+            tok = "ni"
+        else:
+            n = self.excids.setdefault(cls, len(self.excids) + 1)
+            tok = ("p%d" if isinstance(e, ParseError) else "o%d") % n
+        self.exc_descr[cls] = "x" + tok
+        return tok
+
+    def stan_out(self, pd, linker, k: int) -> str:
+        try:
+            with quiet():
+                pd.to_stan(linker)
+            return "r%d" % k
+        except Hang:
+            raise
+        except Exception as e:
+            return "x" + self.exc_tok(e)
+
+    def node_out(self, pd) -> str:
+        try:
+            with quiet():
+                pd.to_node()
+            return "r"
+        except Hang:
+            raise
+        except Exception as e:
+            return "x" + self.exc_tok(e)
+
+    def observe_pd(self, pd, linker, k: int, summ_k: int, toc_k: int) -> Tuple[str, str, str]:
+        """(N, W, T) of a top-level parsed docstring; declares the summary / toc ParsedDocstrings"""
+        from pydoctor.epydoc2stan import ParsedStanOnly
+        from pydoctor.epydoc import markup
+        n = self.node_out(pd)
+        with quiet():
+            s = pd.get_summary()
+        if isinstance(s, ParsedStanOnly):
+            wtok = "n" if canon_stan(s._fromstan) == "nosum" else "xo0"
+        else:
+            wtok = "s%d" % summ_k
+            self.names[id(s)] = "user%d[-]" % summ_k
+            self.spec["pd"][summ_k] = dict(default_pd(summ_k), S=self.stan_out(s, linker, summ_k))
+        ttok = "e"
+        if n == "r" and self.td > 0:
+            try:
+                with quiet():
+                    c = markup.build_table_of_content(pd.to_node(), depth=self.td)
+                if c:
+                    ttok = "c%d" % toc_k
+                    with quiet():
+                        toc = pd.get_toc(self.td)
+                    self.spec["pd"][toc_k] = dict(default_pd(toc_k), S=self.stan_out(toc, linker, toc_k))
+            except Hang:
+                raise
+            except Exception as e:
+                ttok = "x" + self.exc_tok(e)
+        return n, wtok, ttok
+
+    def observe_obj(self, i: int, base: int, doc: str, first_doc_entry) -> None:
+        from pydoctor.epydoc.markup import ParseError
+        from pydoctor.epydoc.markup.plaintext import ParsedPlaintextDocstring
+        w = self.w
+        o = w.objs[i]
+        self.spec["objs"][i] = {"doc": doc}
+        rec = w.records.get(i)
+        if rec is None:
+            return
+        kind, val, errs = rec
+        etoks = []
+        for e in errs:
+            d = e.descr()
+            if d not in self.descr:
+                self.descr[d] = "m%d" % (len([v for v in self.descr.values() if v[0] == "m"]) + 1 + base * 100)
+            etoks.append((int(self.descr[d][1:]), (e._linenum if e._linenum is None or e._linenum >= 0 else 0), int(e.is_fatal())))
+        linker = o.docstring_linker
+        if kind == "raise":
+            self.spec["par"][(self.fmt, i)] = ("raise", self.exc_tok(val), etoks)
+        elif isinstance(val, ParsedPlaintextDocstring):
+            self.spec["par"][(self.fmt, i)] = ("ret", "plain", etoks)
+        else:
+            self.spec["par"][(self.fmt, i)] = ("ret", base, etoks)
+            fs = []
+            bodies = first_doc_entry.get("field_bodies", []) if first_doc_entry else []
+            for j, b in enumerate(bodies):
+                k = base + 9 + j
+                fs.append((0, k, 0))
+                self.spec["pd"][k] = dict(default_pd(k), S=self.stan_out(b, linker, k))
+            n, wtok, ttok = self.observe_pd(val, linker, base, base + 1, base + 2)
+            self.spec["pd"][base] = {"S": self.stan_out(val, linker, base), "N": n, "W": wtok, "T": ttok, "F": fs}
+            self.names[id(val)] = "user%d[%s]" % (base, ";".join("0/u%d/0" % k for (_, k, _) in fs) or "-")
+        pd = o.parsed_docstring
+        if isinstance(pd, ParsedPlaintextDocstring):
+            n, wtok, ttok = self.observe_pd(pd, linker, base + 5, base + 3, base + 4)
+            self.spec["plainfor"][pd._text] = (n, wtok, ttok)
+
+    def descr_token(self, d: str) -> str:
+        if d in self.descr:
+            return self.descr[d]
+        m = re.match(r"(\w+): ", d)
+        if m and m.group(1) in self.exc_descr:
+            return self.exc_descr[m.group(1)]
+        return "other:" + d[:30].replace(" ", "_")
+
+    def pdname(self, pd) -> str:
+        return self.names.get(id(pd), "real:" + type(pd).__name__)
+
+
+def real_role(w: World, x: int):
+    from pydoctor.epydoc.markup.plaintext import ParsedPlaintextDocstring
+
+    def role(i: int, r: str) -> str:
+        base = 1 if i == x else 21
+        plain = isinstance(w.objs[i].parsed_docstring, ParsedPlaintextDocstring)
+        if r == "body":
+            return "o%d" % base
+        if r == "summary":
+            return "o%d" % (base + 3 if plain else base + 1)
+        if r == "toc":
+            return "o%d" % (base + 4 if plain else base + 2)
+        return "o%d" % (base + 9 + int(r[5:]))
+    return role
+
+
+def run_real_case(w: World, fmt: str, pt: int, x: int, doc: str, td: int, limit: float, order: int = 0):
+    """returns (request, impl line, trace, record of x); request is None when the case cannot be put to the model"""
+    w.reset(fmt, pt, td, {})
+    w.spec = {}
+    w.objs[x].docstring = doc
+    w.objs[BYSTANDER].docstring = BYST_REAL
+    ops = real_ops(x, order)
+    outs, trace = run_ops(w, ops, stan_role=real_role(w, x), limit=limit)
+    rec = w.records.get(x)
+    if any(t["hang"] for t in trace):
+        return None, None, trace, rec
+    ob = Observer(w, fmt, pt, td)
+    with time_limit(limit):
+        for (i, base, d) in ((x, 1, doc), (BYSTANDER, 21, BYST_REAL)):
+            first = next((t for t in trace if t["op"] == "d" and t["obj"] == i and "field_bodies" in t), None)
+            ob.observe_obj(i, base, d, first)
+    ob.spec["ops"] = ops
+    main = ob.spec["pd"].get(1)
+    bodies = [t["body"] for t in trace if t["op"] == "d" and t["obj"] == x and "body" in t]
+    if main is not None and len({b.startswith("pre:") for b in bodies} | {main["S"][0] == "x"}) > 1:
+        # to_stan's outcome changed between calls: outside the model's "parameters are functions" assumption (left to the oracle)
+        return None, None, trace, rec
+    req = request_of(ob.spec)
+    line = "ok " + " ; ".join(outs) + canon_state(w, ob.descr_token, ob.pdname, only_report_errors=True)
+    return req, line, trace, rec
+
+
+PRE_RE = re.compile(r'^<div><p class="pre">(.*?)</p>', re.S)
+
+
+def real_oracle(ctx: Ctx, w: World, fmt: str, pt: int, x: int, doc: str, td: int, trace, rec, stream: str) -> bool:
+    """the property, checked on the real code's own output; returns whether the parser reported at least one error"""
+    from pydoctor.epydoc.markup import ParseError
+    from pydoctor.epydoc.markup.plaintext import ParsedPlaintextDocstring
+    inp = {"kind": "real", "fmt": fmt, "pt": pt, "x": x, "td": td, "doc": doc, "stream": stream}
+    surrogate = any(0xD800 <= ord(c) < 0xE000 for c in doc)
+
+    def fail(sig: str, what: str) -> None:
+        ctx.fail(sig, inp, what)
+    prev = 0
+    seen = set()
+    for t in trace:
+        opn = {"e": "ensure", "d": "docstring", "s": "summary", "t": "toc", "x": "extract"}[t["op"]]
+        if t["hang"]:
+            fail("hang:" + opn, "%s did not return within the time limit (docformat %s)" % (opn, FMT_OF[fmt]))
+            return False
+        if t["raised"] is not None:
+            if t["op"] == "t":
+                fail("toc:unguarded-exception", "format_toc raised %s" % type(t["raised"]).__name__)
+            else:
+                fail("%s:raises:%s" % (opn, type(t["raised"]).__name__), "%s raised %s" % (opn, type(t["raised"]).__name__))
+        elif t["flat_err"]:
+            if surrogate and t["flat_err"] == "UnicodeEncodeError":
+                fail("render:lone-surrogate-unicodeencodeerror", "the stan returned by %s for a docstring containing a lone "
+                     "surrogate cannot be flattened (UnicodeEncodeError in twisted's flattener)" % opn)
+            else:
+                fail("flatten:%s:%s" % (opn, t["flat_err"]), "stan returned by %s cannot be flattened" % opn)
+        if (t["op"], t["obj"]) in seen and t["nreports"] != prev:
+            fail("reported-twice:" + opn, "a repeated %s call filed more reports" % opn)
+        seen.add((t["op"], t["obj"]))
+        prev = t["nreports"]
+    errs_now = {w.ids.get(n, 99) for n in w.system.parse_errors.get("docstring", ())}
+    bad = [r for r in w.reports if r[2] == "docstring" and r[1].startswith("bad docstring: ")]
+    mine = [r for r in bad if r[0] == x]
+    shown = [t for t in trace if t["op"] == "d" and t["obj"] == x and t["raised"] is None]
+    pd = w.objs[x].parsed_docstring
+    nerr = 0
+    if rec is not None:
+        kind, val, errs = rec
+        nerr = len(errs) + (1 if kind == "raise" else 0)
+        if kind == "raise":
+            if not (isinstance(pd, ParsedPlaintextDocstring) and pd._text == doc):
+                fail("fallback:parsed-form-not-full-text", "the %s parser gave up (%s) but parsed_docstring is not the plaintext of the "
+                     "whole docstring" % (FMT_OF[fmt], type(val).__name__))
+            for t in shown:
+                if t["body"] != ("pre:?" if surrogate else "pre:" + enc(doc)):
+                    fail("fallback:display-differs", "the parser gave up but the body shown is not <p class=pre> with the whole text")
+                elif not t["flat_err"]:
+                    h, _ = flatten_safely(t["stan"])
+                    m = PRE_RE.match(h or "")
+                    if not m or htmlmod.unescape(m.group(1)) != doc:
+                        fail("fallback:visible-text-differs", "the flattened fallback does not read back as the original text")
+            if x not in errs_now or not mine:
+                fail("fallback:not-reported", "the %s parser gave up (%s) and nothing was reported against the object"
+                     % (FMT_OF[fmt], type(val).__name__))
+            if isinstance(val, ParseError) and not any(e is val for e in errs):
+                ctx.count("real:ParseError-raised-but-not-stored")
+        else:
+            if errs and (x not in errs_now or len(mine) != len(errs)):
+                fail("recovered-errors:not-reported", "the parser stored %d error(s) and returned; %d were reported against the object"
+                     % (len(errs), len(mine)))
+            if not errs and (x in errs_now and not any(t["body"].startswith("pre:") and fmt != "p" for t in shown)):
+                pass
+    elif doc:
+        fail("parser-not-called", "a non-empty docstring was never handed to a parser")
+    if shown and rec is not None and rec[0] == "ret" and not isinstance(rec[1], ParsedPlaintextDocstring):
+        # reference for "the renderer fails on this docstring": parse the same text afresh and render that
+        from pydoctor import epydoc2stan as E
+        fresh_exc = None
+        try:
+            with quiet(), time_limit(20.0):
+                E.parse_docstring(w.objs[x], doc, w.objs[x]).to_stan(w.objs[x].docstring_linker)
+        except Hang:
+            raise
+        except Exception as e:
+            fresh_exc = e
+        if fresh_exc is not None:
+            nerr += 1
+            hidden = [t for t in shown if t["body"] != "pre:" + enc(doc)]
+            if hidden:
+                fail("render:failure-hidden-by-cached-state:" + type(fresh_exc).__name__,
+                     "rendering this docstring fails (%s) but format_docstring showed something else than the whole original "
+                     "text in %d of %d calls (entry-point order %s): a failed to_node() leaves a half-built cached document behind"
+                     % (type(fresh_exc).__name__, len(hidden), len(shown), "".join(t["op"] for t in trace if t["obj"] == x)))
+            elif x not in errs_now:
+                fail("render-fallback:not-reported", "to_stan failed and the object is not among the reported objects")
+    firsts: Dict[str, str] = {}
+    for t in trace:
+        if t["obj"] == BYSTANDER:
+            if t["op"] in firsts and firsts[t["op"]] != t["tok"]:
+                fail("isolation:bystander-output-changed", "another object's rendering changed")
+            firsts.setdefault(t["op"], t["tok"])
+    if BYSTANDER in errs_now or any(r[0] == BYSTANDER for r in bad):
+        fail("isolation:bystander-reported", "a healthy object was reported")
+    for r in bad:
+        if r[0] not in (x, BYSTANDER):
+            fail("isolation:third-object-reported", "a report was filed against an object that was not processed")
+    return nerr > 0
